@@ -192,6 +192,7 @@ CHECKS['C18'] = dict(
     units=[
         U('inpkg', 'TestVerifC18_HistorySessions', q(32000, 16), q(640000, 16, cap=1800), pkg='src'),
         U('inpkg', 'FuzzVerifC18_History', None, q(fuzz=60), pkg='src'),
+        U('proc', 'TestVerifC18_ProcSessions', q(192, 16, cap=900), q(3200, 16, cap=3000), needs_fzf=True),
     ])
 
 CHECKS['C17'] = dict(
@@ -244,6 +245,7 @@ CHECKS['C19'] = dict(
                  'a followed symlink is not descended when its target is the root or a directory on the way down (loop avoidance)'],
     units=[
         U('inpkg', 'TestVerifC19_Walker', q(3200, 16), q(48000, 16, cap=1800), pkg='src'),
+        U('proc', 'TestVerifC19_ProcWalker', q(192, 16, cap=900), q(3200, 16, cap=3000), needs_fzf=True),
     ])
 
 CHECKS['C08'] = dict(
